@@ -554,21 +554,28 @@ def one_case(ctx, rng, idx, out):
                 expected = [pv_canon(rr["result"]), [[m, n] for m, n, r in rr["calls"] if r]]
             except Unsupported:
                 continue
-            out["vm"].append(("sx_load default_world %s" % P.prog_coq(ops), expected, dict(case, corr="vm", generation=gen_i + 1)))
+            # the BYTES of the dump go to the model: decoded as the C unpickler reads them (Pickle/Bytes.v) and run on the
+            # machine; decoded as pickletools.genops reads them; no frame byte is skipped (hypothesis of
+            # C14_bytes_sequential_reading)
+            bs = P.coq_bytes(bb)
+            out["vm"].append(("(let bs := %s in SL [sx_load_bytes default_world %s bs; sx_genops %s bs; sx_bool (negb (snd (bdecode %s bs)))])" % (
+                                  bs, P.coq_c_dialect(bb), P.coq_g_dialect(bb), P.coq_c_dialect(bb)),
+                              [expected, P.genops_obs(bb), True], dict(case, corr="vm", generation=gen_i + 1)))
+            prog = "(bdecode_ops (c_dialect no_text) %s)" % bs
             if gen_i == 0 and not kw:      # ordered mode: the payload as the Delta application model reads it
                 try:
                     from harness import deltacommon as DC
                     obs = DC.delta_obs(rr["result"])
                     if not any(e and e[0] == "UNEXPECTED-CATEGORY" for e in obs):
                         b_ = "true" if bid else "false"
-                        out["dlt"].append(("sx_delta_all default_world %s %s" % (b_, P.prog_coq(ops)),
+                        out["dlt"].append(("sx_delta_all default_world %s %s" % (b_, prog),
                             [obs, obs, _norm_opcode_payload(pv_canon(rr["result"]))], dict(case, corr="delta-model")))
                 except Exception:
                     ctx.count("corr:delta-model-outside-universe")
             shared = _shares_mutable(rr["result"])
             ctx.count("dump:with-shared-mutable-container" if shared else "dump:no-shared-mutable-container")
             # the payload as THIS dump wrote it (set iteration order is that of the dumped object)
-            out["acc"].append(("(%s, %s)" % (P.prog_coq(ops), pcoq if gen_i == 0 else pv_coq(d2.diff)), shared,
+            out["acc"].append(("(%s, %s)" % (prog, pcoq if gen_i == 0 else pv_coq(d2.diff)), shared,
                                dict(case, corr="accepts", generation=gen_i + 1, shared=shared)))
             memo_kind, prev = {}, None
             for o in ops:
@@ -1136,28 +1143,38 @@ def encoder_part(ctx, items):
     if not items:
         return
     from deepdiff.serialization import pickle_load
-    hdr = "From DD Require Import Base.PyStr Base.Value Pickle.Vm Pickle.Codec Pickle.PickleShow.\nLocal Open Scope Z_scope."
+    hdr = "From DD Require Import Base.PyStr Base.Value Pickle.Vm Pickle.Codec Pickle.Bytes Pickle.PickleShow.\nLocal Open Scope Z_scope."
     chunk = 20
     n_ok = 0
     for i in range(0, len(items), chunk):
         part = items[i:i + chunk]
         txt = coq_eval_big(ctx, "c14_enc_%d" % (i // chunk), hdr,
-                           '"BEGIN" ++ nl ++ show_progs (map enc_prog [%s]) ++ "END"' % "; ".join(p for p, _c, _k in part))
+                           '"BEGIN" ++ nl ++ show_dumps (map (fun v => if dump_ok v then dump_bytes v else [999%%N]) [%s]) ++ "END"'
+                           % "; ".join(p for p, _c, _k in part))
         if txt is None:
             continue
-        progs = parse_shown(txt)
+        # the model's canonical dump as BYTES (Bytes.dump_bytes: the assembler under Codec.enc), handed as they are
+        # to the real pickle_load
+        # (dump_ok, the hypothesis of the C14_bytes_* theorems, is evaluated on each of these payloads: 999 marks a failure)
+        try:
+            progs = [bytes(int(x) for x in line.split()) for line in txt.split("\n") if line.strip()]
+        except ValueError as e:
+            ctx.break_("correspondence", {"name": "encoder", "error": "dump_ok is false for a generated payload (hypothesis of the "
+                                          "C14_bytes_* theorems not met), or a byte outside 0..255 in dump_bytes: %s" % e})
+            continue
+        ctx.count("hypothesis dump_ok holds of the payload", len(progs))
         if len(progs) != len(part):
             ctx.break_("correspondence", {"name": "encoder", "error": "expected %d programs, got %d" % (len(part), len(progs))})
             continue
         for ops, (_p, canon, case) in zip(progs, part):
             ctx.corr_cases += 1
             try:
-                got = pv_canon(pickle_load(P.assemble(ops)))
+                got = pv_canon(pickle_load(ops))
             except Exception as e:  # noqa
                 got = "raised " + type(e).__name__
             if got != canon:
                 ctx.corr_mismatch += 1
-                ctx.break_("correspondence", {"name": "encoder", "case": case, "model": "enc_prog payload", "impl": repr(got)[:500],
+                ctx.break_("correspondence", {"name": "encoder", "case": case, "model": "dump_bytes payload", "impl": repr(got)[:500],
                                               "meaning": "the real pickle_load does not decode the model's canonical encoding to the payload"})
             else:
                 n_ok += 1
@@ -1172,7 +1189,7 @@ def accepts_part(ctx, items):
     if not items:
         return
     from concurrent.futures import ThreadPoolExecutor
-    hdr = ("From DD Require Import Base.PyStr Base.Value Pickle.Vm Pickle.Codec Pickle.Encodes Pickle.PickleShow.\n"
+    hdr = ("From DD Require Import Base.PyStr Base.Value Pickle.Vm Pickle.Codec Pickle.Bytes Pickle.Encodes Pickle.PickleShow.\n"
            "Local Open Scope Z_scope.")
     chunk = 40
     parts = [items[i:i + chunk] for i in range(0, len(items), chunk)]
@@ -1271,12 +1288,12 @@ def run(ctx):
         one_case(ctx, ctx.rng, i, out)
     exotic_stream(ctx)
     out["json"] += fixed_witnesses(ctx)
-    hdr = "From DD Require Import Base.PyStr Base.Value Pickle.Vm Pickle.Codec Pickle.PickleShow.\nLocal Open Scope Z_scope."
+    hdr = "From DD Require Import Base.PyStr Base.Value Pickle.Vm Pickle.Codec Pickle.Bytes Pickle.PickleShow.\nLocal Open Scope Z_scope."
     ctx.coq_cases("c14_vm", hdr, out["vm"], shard=60, label="real dumps on the model VM")
     ctx.coq_cases("c14_json", hdr, out["json"], shard=120, label="json value + json round trip")
     accepts_part(ctx, out["acc"])
     from harness import deltacommon as DC
-    ctx.coq_cases("c14_delta", DC.HDR[:-1] + " Pickle.Vm Pickle.Codec Pickle.DeltaCodec Pickle.DeltaCodecShow.\nLocal Open Scope Z_scope.",
+    ctx.coq_cases("c14_delta", DC.HDR[:-1] + " Pickle.Vm Pickle.Codec Pickle.Bytes Pickle.DeltaCodec Pickle.DeltaCodecShow.\nLocal Open Scope Z_scope.",
                   out["dlt"], shard=60, label="decoded dump read as a delta of the application model")
     ctx.coq_cases("c14_jsonsets", DC.HDR[:-1] + " Pickle.Vm Pickle.Codec Pickle.DeltaCodec Pickle.DeltaCodecShow.\nLocal Open Scope Z_scope.",
                   out["jset"], shard=60, label="JSON-persisted deltas with set items: payload relation and delta")
